@@ -6,12 +6,11 @@
 //!          `ins_100(<mask>)` instruction per byte, raised with the real `Raiser`), as it appears
 //!          in the formatted text, and the difficulty byte the real parser + Lowerer give each
 //!          statement when that text is compiled again.
-//!   c14 switch <stmts.ndjson>     each line {id, defs:[..], body:[interchange stmts; "diff" is an
-//!                                 array of 1-character strings]}
+//!   c14 switch <stmts.ndjson>     each line {id, defs:[..], st:{form, args:[interchange exprs],
+//!                                 own:{has,chars}, outer:{has,chars}}}
 //!       -> the emitted instructions (opcode, difficulty byte, param mask, decoded int args).
 
 use serde_json::{json, Value};
-use truth::ast;
 use truth::llir::{self, RawInstr};
 use vh::common::*;
 
@@ -137,25 +136,31 @@ fn masks_row(c: &Value) -> Value {
     row
 }
 
-/// "diff": ["E","N"] -> "diff": "EN"   (what vh::render expects); recursive over nested bodies.
-fn join_labels(v: &mut Value) {
-    match v {
-        Value::Object(m) => {
-            if let Some(Value::Array(a)) = m.get("diff") {
-                let s: String = a.iter().map(|x| x.as_str().unwrap_or("")).collect();
-                m.insert("diff".into(), json!(s));
-            }
-            for (_, x) in m.iter_mut() { join_labels(x); }
-        },
-        Value::Array(a) => for x in a { join_labels(x); },
-        _ => {},
+fn chars(l: &Value) -> String {
+    l["chars"].as_array().map(|a| a.iter().map(|x| x.as_str().unwrap_or("")).collect()).unwrap_or_default()
+}
+
+/// The statement in interchange form (what vh::render prints): purely structural.
+///   st = {form: "call"|"assign", args: [expr], own: {has, chars}, outer: {has, chars}}
+/// call  -> `ins_<100+n>(args..)`; assign -> `$REG[1000] = args[0]`; `own` is the statement's
+/// label; with `outer` the statement is wrapped in a labelled block.
+fn stmt_body(st: &Value) -> Value {
+    let args = st["args"].as_array().cloned().unwrap_or_default();
+    let mut stmt = match st["form"].as_str().unwrap() {
+        "call" => json!({"k": "expr", "e": {"k": "call", "name": {"ins": 100 + args.len()}, "args": args}}),
+        "assign" => json!({"k": "assign", "var": {"k": "var", "id": "r1000", "sig": "$"}, "op": "=", "value": args[0]}),
+        other => panic!("unknown statement form {}", other),
+    };
+    if st["own"]["has"].as_bool().unwrap_or(false) { stmt["diff"] = json!(chars(&st["own"])); }
+    if st["outer"]["has"].as_bool().unwrap_or(false) {
+        stmt = json!({"k": "block", "diff": chars(&st["outer"]), "body": [stmt]});
     }
+    json!([stmt])
 }
 
 fn switch_row(c: &Value) -> Value {
     let mapfile = switch_mapfile(&c["defs"]);
-    let mut body = c["body"].clone();
-    join_labels(&mut body);
+    let body = stmt_body(&c["st"]);
     let text = vh::render::block_text(&body);
     match compile_text(&mapfile, &text) {
         Out::Ok(instrs, diag) => json!({
@@ -175,7 +180,6 @@ fn main() {
     let out = std::io::stdout();
     let mut out = std::io::BufWriter::new(out.lock());
     use std::io::Write;
-    let _ = ast::Block(vec![]);
     for c in &cases {
         let row = match args[0].as_str() {
             "masks" => masks_row(c),
